@@ -18,7 +18,8 @@ BitSet(lab, i) == (lab \div Pow2(i - 1)) % 2 = 1           \* bit i-1 of the 0-b
 
 \* label bit i set <=> row i satisfied (m_i . x <= b_i); otherwise m_i . x > b_i   (evaluate_decision)
 ConsOf(nd, lab) ==
-    {IF BitSet(lab, i) THEN Le(nd.m[i], nd.b[i]) ELSE Lt(Neg(nd.m[i]), -nd.b[i]) : i \in 1..Len(nd.m)}
+    IF lab >= Pow2(Len(nd.m)) THEN {Le(ZeroVec(Len(nd.m[1])), -1)}        \* a label the predicate cannot produce: no input
+    ELSE {IF BitSet(lab, i) THEN Le(nd.m[i], nd.b[i]) ELSE Lt(Neg(nd.m[i]), -nd.b[i]) : i \in 1..Len(nd.m)}
 \* closed version of the same half-spaces, as PolyhedraGen / polyhedral_path_characterization report them
 \* a label the predicate cannot produce (lab >= 2^rows) is taken by no input: the empty half-space 0 <= -1
 ClosedConsOf(nd, lab) ==
